@@ -12,6 +12,7 @@ structure Rp where
   marked : Bool
   vers : List (String × Nat)      -- MstVersions: logical name ↦ last version
   msts : List (String × Bool)     -- Measurements: name with version ↦ MarkDeleted
+  schema : List (String × List String)  -- MeasurementInfo.Schema: name with version ↦ field keys
 deriving Repr, DecidableEq
 
 structure Db where
@@ -82,7 +83,7 @@ def setAssoc {β : Type} (l : List (String × β)) (k : String) (v : β) : List 
 
 def Cat.dbCreate (c : Cat) : Except CatErr Cat :=
   match c.db with
-  | none => .ok ⟨some ⟨false, some ⟨false, [], []⟩⟩⟩
+  | none => .ok ⟨some ⟨false, some ⟨false, [], [], []⟩⟩⟩
   | some d => if d.marked then .error .dbDeleting else .ok c
 
 def Cat.dbMark (c : Cat) : Except CatErr Cat :=
@@ -95,7 +96,7 @@ def Cat.dbDrop (_ : Cat) : Cat := ⟨none⟩
 def Cat.rpCreate (c : Cat) : Except CatErr Cat := do
   let d ← c.getDb
   match d.rp with
-  | none => .ok ⟨some { d with rp := some ⟨false, [], []⟩ }⟩
+  | none => .ok ⟨some { d with rp := some ⟨false, [], [], []⟩ }⟩
   | some _ => .ok c
 
 def Cat.rpMark (c : Cat) : Except CatErr Cat := do
@@ -118,7 +119,9 @@ def Cat.mCreate (c : Cat) (n : String) : Except CatErr (Cat × String) := do
   | _ =>
     let v := nextVer (r.vers.lookup n)
     let p := nameWithVer n v
-    .ok (Cat.setRp d { r with vers := setAssoc r.vers n v, msts := setAssoc r.msts p false }, p)
+    -- a new `MeasurementInfo`: no schema yet
+    .ok (Cat.setRp d { r with vers := setAssoc r.vers n v, msts := setAssoc r.msts p false,
+                              schema := setAssoc r.schema p [] }, p)
 
 def Cat.mMark (c : Cat) (n : String) : Except CatErr Cat := do
   let dr ← c.getRp
@@ -136,5 +139,37 @@ def Cat.mDrop (c : Cat) (p : String) : Except CatErr Cat := do
   match r.msts.lookup p with
   | some true => .ok (Cat.setRp d { r with msts := r.msts.filter (·.1 != p) })
   | _ => .ok c
+
+def insertStr (x : String) : List String → List String
+  | [] => [x]
+  | y :: ys => if x < y then x :: y :: ys else if x == y then y :: ys else y :: insertStr x ys
+
+/-- `Data.UpdateSchema` with one new field of a fixed type: the live measurement's schema gets
+the key. -/
+def Cat.addField (c : Cat) (n f : String) : Except CatErr Cat := do
+  let dr ← c.getRp
+  let d := dr.1
+  let r := dr.2
+  match r.current n with
+  | some (p, false) =>
+    .ok (Cat.setRp d { r with schema := setAssoc r.schema p (insertStr f ((r.schema.lookup p).getD [])) })
+  | _ => .error .mstNotFound
+
+/-- SHOW FIELD KEYS FROM n: the schema of the measurement the name resolves to, keys ascending. -/
+def Cat.fieldKeys (c : Cat) (n : String) : Except CatErr (List String) := do
+  let dr ← c.getRp
+  let r := dr.2
+  match r.current n with
+  | some (p, false) => .ok ((r.schema.lookup p).getD [])
+  | _ => .error .mstNotFound
+
+/-- SHOW MEASUREMENTS: the logical names that resolve. -/
+def Cat.measurements (c : Cat) : List String :=
+  match c.getRp with
+  | .ok (_, r) => (r.vers.map (·.1)).filter fun n =>
+      match r.current n with
+      | some (_, false) => true
+      | _ => false
+  | .error _ => []
 
 end OG.C13
